@@ -229,4 +229,4 @@ def replay(ctx, rec):
         n0 = len(ctx.violations)
         judge_ll(ctx, gen.json[0], c["a"], c["d"], lossless_on_code(c["a"], c["d"]), "replay")
         return len(ctx.violations) > n0
-    return True
+    raise core.CannotReplay("the case could not be reconstructed from the model")
